@@ -85,6 +85,7 @@ class Evolver:
         self.new_structs: List[str] = []
         self.new_enums: List[str] = []
         self.base_structs = [s["name"] for s in base["structures"] if not s["name"].startswith("_") and s["name"] != "LSPObject"]
+        self.base_structs_decl = list(base["structures"])
         self.closed_enums = [e["name"] for e in base["enumerations"] if not e.get("supportsCustomValues") and e["name"] != "CompletionItemKind"]
         self.kw_names = [k for k in keyword.kwlist if k.islower() and k.isalpha()]
         # structures that are alternatives of a general union (>= 2 non-null alternatives, directly or through
@@ -338,7 +339,7 @@ class Evolver:
             # productions that once exposed a defect (kept as a standing floor)
             "message-no-typename", "rust-keyword-name", "base-regexp", "empty-struct-property", "request-no-typename",
             "matrix", "same-name-different-nullness", "shared-registration-method", "diamond",
-            "message-regopts-no-params", "explicit-closed-enum", "and-registration-options", "deep-mixin", "confusing-message-names", "exotic-enum-values", "message-map-keys", "marked-everything", "alias-shapes", "declares-response-error", "method-mentions-request", "literal-name-collision", "big-declarations", "case-only-names", "mutual-recursion", "digit-names"]
+            "message-regopts-no-params", "explicit-closed-enum", "and-registration-options", "deep-mixin", "confusing-message-names", "exotic-enum-values", "message-map-keys", "marked-everything", "alias-shapes", "declares-response-error", "method-mentions-request", "literal-name-collision", "big-declarations", "case-only-names", "mutual-recursion", "digit-names", "substring-names"]
     RUST_AND_PYTHON_KEYWORDS = ["in", "for", "as", "if", "else", "while", "continue", "break", "return", "async", "await", "try", "yield"]
 
     MATRIX_PRODUCTIONS = ["base", "ref-struct", "ref-enum", "ref-alias", "array", "map", "tuple", "ornull-first", "ornull-last", "literal",
@@ -361,7 +362,9 @@ class Evolver:
                 while remaining and (names_left is None or names_left):
                     prod, opt = remaining.pop(0)
                     p = self.new_property(local, depth=1, force=prod, optional=opt)
-                    mark_i = len(props) % 4     # marks cycle through the properties: none / proposed / deprecated / since
+                    # marks cycle through the properties (none / proposed / deprecated / since), out of step with the
+                    # required/optional alternation: required properties get every mark too
+                    mark_i = (len(props) + len(props) // 2) % 4
                     for m_ in ("proposed", "deprecated", "since", "sinceTags", "documentation"):
                         p.pop(m_, None)
                     if mark_i == 1:
@@ -517,6 +520,27 @@ class Evolver:
         if focus == "message-regopts-no-params":
             self.e_new_message(is_request=True, registration="own", params=False)
             return self.e_new_message(is_request=False, registration="own", params=False)
+        if focus == "substring-names":
+            # a structure with exactly one "special" property (null-admitting, or a string literal) and optional properties whose
+            # names are parts of that property's name - in camelCase and, after the plugin's renaming, in snake_case
+            S_, N_ = {"kind": "base", "name": "string"}, {"kind": "base", "name": "null"}
+            specs = [("documentSelector", {"kind": "or", "items": [S_, N_]}, ["document", "selector", "doc"]),
+                     ("activeParameter", {"kind": "or", "items": [{"kind": "base", "name": "uinteger"}, N_]}, ["active", "parameter", "param"]),
+                     ("snapshotKind", {"kind": "stringLiteral", "value": "vfSnapshot"}, ["snapshot", "kind", "shot"]),
+                     ("workspaceFolders", {"kind": "or", "items": [{"kind": "array", "element": S_}, N_]}, ["workspace", "folders", "work"])]
+            made = []
+            for special, ty, parts in specs:
+                name = self.fresh_type_name("VfPart")
+                props = [{"name": special, "type": ty}] + [{"name": q, "type": S_, "optional": True} for q in parts]
+                props = [p_ for p_ in props if p_["name"] not in self.kw_names]
+                self.doc["structures"].append({"name": name, "properties": props})
+                self.new_structs.append(name)
+                made.append(name)
+                self.edits.append({"edit": "E1-new-structure", "name": name, "properties": [p_["name"] for p_ in props]})
+            self.counter += 1
+            self.doc["notifications"].append({"method": f"vf/parts{self.counter}", "messageDirection": "both", "params": {"kind": "reference", "name": made[0]}})
+            self.edits.append({"edit": "E6-new-message", "method": f"vf/parts{self.counter}", "request": False})
+            return
         if focus == "digit-names":
             # property names whose words end in digits or are one letter long (utf8Offset, is64Bit, point3D, xRange)
             name = self.fresh_type_name("VfDigits")
@@ -709,6 +733,8 @@ class Evolver:
                 p = self.new_property(local, depth=1, allow_literal=False, force="base", optional=bool(i % 2))
                 local.add(p["name"])
                 p["deprecated"], p["since"] = text(), text()
+                if i % 3 == 0:
+                    p["proposed"] = True   # required (even i) and optional (odd i) properties alike
                 props.append(p)
             self.doc["structures"].append({"name": sname, "properties": props, "deprecated": text(), "since": text(), "sinceTags": ["3.17.0", text()]})
             self.new_structs.append(sname)
@@ -926,6 +952,22 @@ class Evolver:
             table = [t for t in table if t[0] in self.allow]
         for _ in range(n_edits):
             self.pick(table)[1]()
+        # the order of declarations carries no meaning: the new structures come in another order (most derived first,
+        # shuffled), and sometimes in front of the existing ones
+        base_n = len(self.base_structs_decl)
+        new = self.doc["structures"][base_n:]
+        if len(new) > 1:
+            how = self.draw(st.integers(0, 3))
+            if how == 1:
+                new = list(reversed(new))
+            elif how == 2:
+                new = [new[i] for i in self.draw(st.permutations(list(range(len(new)))))]
+            elif how == 3:
+                new = list(reversed(new))
+                self.doc["structures"] = new[: len(new) // 2] + self.doc["structures"][:base_n] + new[len(new) // 2:]
+                new = None
+            if new is not None:
+                self.doc["structures"] = self.doc["structures"][:base_n] + new
 
 
 def evolved(base: dict, min_edits: int = 0, max_edits: int = 6, allow: Optional[set] = None, focus: Optional[str] = None) -> st.SearchStrategy:
